@@ -15,7 +15,8 @@ Proof.
     + apply Z.eqb_eq in E. pose proof (padic_nonneg f p (n / p)) as Hk.
       replace (1 + padic f p (n / p)) with (Z.succ (padic f p (n / p))) by lia.
       rewrite Z.pow_succ_r by exact Hk.
-      rewrite (Z.div_mod n p) at 2 by lia. rewrite E, Z.add_0_r.
+      assert (Hn : n = p * (n / p)) by (pose proof (Z.div_mod n p); lia).
+      rewrite Hn at 2.
       apply Z.mul_divide_mono_l. apply IH.
     + rewrite Z.pow_0_r. apply Z.divide_1_l.
 Qed.
@@ -26,10 +27,10 @@ Proof.
   - cbn in Hlt. lia.
   - cbn [padic]. destruct (Z.eqb (n mod p) 0) eqn:E.
     + apply Z.eqb_eq in E. pose proof (padic_nonneg f p (n / p)) as Hk.
-      assert (Hnm : n = p * (n / p)) by (rewrite (Z.div_mod n p) at 1 by lia; lia).
-      assert (Hm : 0 < n / p) by nia.
+      assert (Hnm : n = p * (n / p)) by (pose proof (Z.div_mod n p); lia).
+      assert (Hm : 0 < n / p) by (apply Z.div_str_pos; split; [lia|]; destruct (Z.le_gt_cases p n); [assumption|]; rewrite Z.div_small in Hnm by lia; lia).
       assert (Hml : n / p < p ^ Z.of_nat f).
-      { rewrite Nat2Z.inj_succ, Z.pow_succ_r in Hlt by lia. nia. }
+      { rewrite Nat2Z.inj_succ, Z.pow_succ_r in Hlt by lia. apply Z.div_lt_upper_bound; lia. }
       intro Hd. apply (IH (n / p) Hm Hml).
       replace (1 + padic f p (n / p) + 1) with (Z.succ (padic f p (n / p) + 1)) in Hd by lia.
       rewrite Z.pow_succ_r in Hd by lia. rewrite Hnm in Hd at 2.
@@ -37,22 +38,27 @@ Proof.
     + apply Z.eqb_neq in E. rewrite Z.add_0_l, Z.pow_1_r. intro Hd. apply E. apply Z.mod_divide; [lia | exact Hd].
 Qed.
 
-(* what the model answers for multiplicity(p, n) IS the valuation: p^k divides n and p^(k+1) does not *)
+Lemma two_pow_le p k : 2 <= p -> 0 <= k -> 2 ^ k <= p ^ k.
+Proof. intros Hp Hk. apply Z.pow_le_mono_l. lia. Qed.
+
+(* the negative argument of the round-12 change: multiplicity(2, -8) is 3 *)
+Example multiplicity_of_a_negative : multiplicityQ 2 (-8 # 1) = Some (3 # 1)%Q.
+Proof. vm_compute. reflexivity. Qed.
+
+Local Opaque padic Z.pow.
+
 Theorem multiplicity_meaning (p n : Z) v :
   multiplicityQ (inject_Z p) (inject_Z n) = Some v ->
   exists k, v = inject_Z k /\ 0 <= k /\ (p ^ k | n) /\ ~ (p ^ (k + 1) | n).
 Proof.
   unfold multiplicityQ. rewrite !is_int_inject, !to_int_inject. cbn [andb].
   destruct (Z.leb 2 p) eqn:Hp; [|discriminate]. destruct (Z.eqb n 0) eqn:Hn; [discriminate|]. cbn [negb andb].
-  destruct (Z.ltb (Z.abs n) (2 ^ 200)) eqn:Hl; [|discriminate].
+  set (B := (2 ^ 200)%Z). set (F := 200%nat).
+  destruct (Z.ltb (Z.abs n) B) eqn:Hl; [|discriminate].
   apply Z.leb_le in Hp. apply Z.eqb_neq in Hn. apply Z.ltb_lt in Hl.
-  intro H. inversion H. exists (padic 200 p (Z.abs n)). split; [reflexivity|]. split; [apply padic_nonneg|].
+  intro H. injection H as H. exists (padic F p (Z.abs n)). split; [symmetry; exact H|]. split; [apply padic_nonneg|].
   split.
   - apply Z.divide_abs_r. apply padic_divides. lia.
   - intro Hd. apply Z.divide_abs_r in Hd. revert Hd. apply padic_maximal; [exact Hp | lia |].
-    eapply Z.lt_le_trans; [exact Hl|]. change 200 with (Z.of_nat 200). apply Z.pow_le_mono_l. lia.
+    eapply Z.lt_le_trans; [exact Hl|]. subst B F. change 200 with (Z.of_nat 200). apply two_pow_le; [exact Hp|apply Nat2Z.is_nonneg].
 Qed.
-
-(* the negative argument of the round-12 change: multiplicity(2, -8) is 3 *)
-Example multiplicity_of_a_negative : multiplicityQ 2 (-8 # 1) = Some (3 # 1)%Q.
-Proof. vm_compute. reflexivity. Qed.
